@@ -23,9 +23,9 @@ func init() {
 		{Name: "Chinese u16 bound to 32 bits", File: "internal/types/universe_wz.go", Old: "{Uint16, IsInteger | IsUnsigned, token.K_短正整}", New: "{Uint32, IsInteger | IsUnsigned, token.K_短正整}", Expect: "universe-alias-kinds"},
 		{Name: "Chinese i64 bound to int", File: "internal/types/universe_wz.go", Old: "{Int64, IsInteger, token.K_长整型}", New: "{Int, IsInteger, token.K_长整型}", Expect: "universe-alias-kinds"},
 		{Name: "Chinese __LINE__ accessor returns the English object", File: "internal/types/universe.go", Old: "\tif p.pkg.W2Mode {\n\t\treturn wzUniverse__LINE__", New: "\tif p.pkg.W2Mode {\n\t\treturn waUniverse__LINE__", Expect: "language-accessor-pairing :: internal/types.Checker._universe__LINE__"},
-		{Name: "Wz universe loses a builtin", File: "internal/types/universe_wz.go", Old: "\t_Len:     {K_长, 1, false, expression},\n", New: "", Expect: "universe-bijection"},
-		{Name: "Wz builtin arity differs", File: "internal/types/universe_wz.go", Old: "\t_Cap:     {K_容量, 1, false, expression},", New: "\t_Cap:     {K_容量, 2, false, expression},", Expect: "universe-bijection :: _Cap"},
-		{Name: "Chinese keyword spelled like another", File: "internal/token/token.go", Old: "\tK_继续 = \"继续\"", New: "\tK_继续 = \"跳出\"", Expect: "keyword-table"},
+		{Name: "Wz universe loses a builtin", File: "internal/types/universe_wz.go", Old: "\t_Len:     {token.K_长度, 1, false, expression},\n", New: "", Expect: "universe-bijection"},
+		{Name: "Wz builtin arity differs", File: "internal/types/universe_wz.go", Old: "\t_Cap:     {token.K_容量, 1, false, expression},", New: "\t_Cap:     {token.K_容量, 2, false, expression},", Expect: "universe-bijection :: _Cap"},
+		{Name: "Chinese keyword spelled like another", File: "internal/token/const_wz.go", Old: "\tK_继续 = \"继续\"", New: "\tK_继续 = \"跳出\"", Expect: "keyword-table"},
 	}})
 }
 
